@@ -277,11 +277,113 @@ impl Operand {
         }
     }
 }
+thread_local! {
+    /// Spelling of the case being run (set by the part that draws it, reset at the start of every case):
+    /// .0 = field names: 0 as generated; 1, 2 = numeric fields are called by names that end like the exponent part of a
+    /// number or in a digit (`xe`, `yE`, `e`, `E`, `x1e`, `n0`) -- see `styled_component`;
+    /// .1 = arithmetic is written without blanks around its operators (`A.xe+1`, `B.e-2*A.yE`)
+    pub static SPELLING: std::cell::Cell<(u8, bool)> = const { std::cell::Cell::new((0, false)) };
+}
+
+/// The name a path component goes by under a spelling style.
+pub fn styled_component(style: u8, c: &str) -> &str {
+    match (style, c) {
+        (1, "x") => "xe",
+        (1, "y") => "yE",
+        (1, "n") => "n0",
+        (1, "k") => "k2e",
+        (2, "x") => "e",
+        (2, "y") => "E",
+        (2, "n") => "x1e",
+        (2, "k") => "e5",
+        (_, c) => c,
+    }
+}
+
+pub fn styled_path(style: u8, p: &str) -> String {
+    p.split('.').enumerate().map(|(i, c)| if i == 0 { c } else { styled_component(style, c) }).collect::<Vec<_>>().join(".")
+}
+
+fn restyle_v(style: u8, v: &mut V) {
+    match v {
+        V::Obj(o) => {
+            let old = std::mem::take(o);
+            for (k, mut x) in old {
+                restyle_v(style, &mut x);
+                o.insert(styled_component(style, &k).to_string(), x);
+            }
+        }
+        V::Arr(a) => a.iter_mut().for_each(|x| restyle_v(style, x)),
+        _ => {}
+    }
+}
+
+/// Rename every field of the case (rules and store alike) to its name under `style`. Values are data: untouched.
+pub fn restyle_case(style: u8, rules: &mut [RuleAst], st: &mut Store) {
+    if style == 0 {
+        return;
+    }
+    let old = std::mem::take(&mut st.top);
+    for (k, mut v) in old {
+        restyle_v(style, &mut v);
+        st.top.insert(styled_path(style, &k), v);
+    }
+    fn operand(style: u8, o: &mut Operand) {
+        if let Operand::Field(p) = o {
+            *p = styled_path(style, p);
+        }
+    }
+    fn arith(style: u8, a: &mut Arith) {
+        operand(style, &mut a.first);
+        for (_, o) in a.rest.iter_mut() {
+            operand(style, o);
+        }
+    }
+    fn term(style: u8, t: &mut Term) {
+        match t {
+            Term::Field(p) => *p = styled_path(style, p),
+            Term::Arith(a) => arith(style, a),
+            Term::Lit(_) => {}
+        }
+    }
+    fn cond(style: u8, c: &mut Cond) {
+        match c {
+            Cond::Atom(a) => {
+                match &mut a.lhs {
+                    Lhs::Field(p) => *p = styled_path(style, p),
+                    Lhs::Arith(x) => arith(style, x),
+                }
+                term(style, &mut a.rhs);
+            }
+            Cond::And(a, b) | Cond::Or(a, b) => {
+                cond(style, a);
+                cond(style, b);
+            }
+            Cond::Not(x, _) => cond(style, x),
+        }
+    }
+    for r in rules.iter_mut() {
+        cond(style, &mut r.cond);
+        for a in r.actions.iter_mut() {
+            a.target = styled_path(style, &a.target);
+            term(style, &mut a.rhs);
+        }
+    }
+}
+
 impl Arith {
     pub fn grl(&self) -> String {
+        // (without blanks only when a field is among the operands: the parser documents that it takes operator-bearing
+        // text for arithmetic when it "has a field reference or has spaces" -- `6+4` alone is a bare word to it)
+        let has_field = matches!(self.first, Operand::Field(_)) || self.rest.iter().any(|(_, o)| matches!(o, Operand::Field(_)));
+        let compact = SPELLING.with(|c| c.get().1) && has_field;
         let mut s = self.first.grl();
         for (op, o) in &self.rest {
-            s.push_str(&format!(" {} {}", op, o.grl()));
+            if compact {
+                s.push_str(&format!("{}{}", op, o.grl()));
+            } else {
+                s.push_str(&format!(" {} {}", op, o.grl()));
+            }
         }
         s
     }
@@ -790,10 +892,11 @@ pub fn gen_value(s: &mut Src, cfg: &GenCfg) -> V {
 
 /// all candidate paths
 pub fn universe() -> Vec<String> {
+    let style = SPELLING.with(|c| c.get().0);
     let mut u = Vec::new();
     for o in OBJS {
         for p in SUBPATHS {
-            u.push(format!("{}.{}", o, p));
+            u.push(styled_path(style, &format!("{}.{}", o, p)));
         }
     }
     u.push("F.x".into());
